@@ -16,6 +16,7 @@ RULE = ("real adaptive runs of the three strategies (dimension-wise, extend-spli
         "hostile error values. Observers record the EVAL/REFINE event list; the oracle is evaluated offline on the trace and "
         "on the returned tuple. distinct = digest of (strategy, limits, number of evaluations); non-trivial = run with >=2 "
         "evaluations, or a limit already met at the first evaluation")
+RULE += (" " + 'Integrand output scales 1e-9..1e3; limits that TIE with an attained point count.')
 REQUIRED = ["stop_rule_last", "stop_rule_not_before", "one_refine_between_evals", "array_lengths", "arrays_match_events",
             "points_monotone", "nonnegative_finite", "error_formula", "point_count_is_distinct_evaluations",
             "stopped_at_first_evaluation", "stopped_by_tolerance_midrun", "stopped_by_max"]
